@@ -81,6 +81,7 @@ class Env(object):
         self.declared_constraints = []   # (where, Constraint)
         self.declared_lmis = []          # (where, PSDMatrix or None-if-list, raw spec)
         self.lmi_raw = []                # (PSDMatrix, matrix as written by the user)
+        self.altered_arguments = []      # descriptions of user arguments that a declaration modified
         self.declared_metrics = []
         self.step_constraints = []       # (function, Constraint) observed as list deltas around step calls
         self.results = []                # return values of solve instructions
@@ -488,8 +489,10 @@ class Interp(object):
         env.features.add("redeclared_constraint")
         return self._declare_constraint(where, c)
 
-    def op_lmi(self, where, rows, prebuilt=False, name=None):
-        """rows: square matrix of ['e', i] | ['n', v] ; where: 'pep' | ['f', i] | 'none'"""
+    def op_lmi(self, where, rows, prebuilt=False, name=None, how="list"):
+        """rows: square matrix of ['e', i] | ['n', v] ; where: 'pep' | ['f', i] | 'none' ;
+        how: 'list' (nested lists) | 'ndarray' (object array, the other documented form) | 'ndarray_reused' (the caller
+        overwrites its array after the declaration, as when one buffer is used to declare several LMIs)"""
         from PEPit import PSDMatrix
         env = self.env
         mat = []
@@ -504,6 +507,14 @@ class Interp(object):
                 else:
                     r.append(ent[1])
             mat.append(r)
+        given = mat                      # what the user wrote, kept apart from what is handed to PEPit
+        if how != "list":
+            import numpy as _np
+            arr = _np.empty((len(mat), len(mat)), dtype=object)
+            for a in range(len(mat)):
+                for b in range(len(mat)):
+                    arr[a, b] = mat[a][b]
+            given, mat = [list(r) for r in mat], arr
         obj = None
         if where == "none":
             obj = PSDMatrix(matrix_of_expressions=mat)
@@ -524,8 +535,18 @@ class Interp(object):
             obj = f.list_of_psd[n0]
             env.declared_lmis.append((f, obj))
             env.features.add("function_lmi")
+        if how != "list":
+            for a in range(len(given)):
+                for b in range(len(given)):
+                    if mat[a, b] is not given[a][b]:
+                        env.altered_arguments.append("the array passed to declare a %dx%d LMI had its entry (%d,%d) replaced"
+                                                     % (len(given), len(given), a, b))
+            if how == "ndarray_reused":
+                for a in range(len(given)):
+                    for b in range(len(given)):
+                        mat[a, b] = 0
         env.M.append(obj)
-        env.lmi_raw.append((obj, mat))        # the entries exactly as the user wrote them (Expression objects / numbers)
+        env.lmi_raw.append((obj, given))      # the entries exactly as the user wrote them (Expression objects / numbers)
         env.features.add("lmi")
         return obj
 
